@@ -91,7 +91,8 @@ func ConnectWithConfig(c *ConnConfig) (*Conn, error) {
 	}
 
 	if c.sentStorage == nil {
-		c.sentStorage = newInmemSentStorageNoPayload()
+		// the store is the source of retransmissions after a resume: it must keep the payloads.
+		c.sentStorage = newInmemSentStorage()
 	}
 
 	if c.upstreamRepository == nil {
